@@ -52,10 +52,12 @@ struct Lib {
     exec_ok: bool,
     pretty: String,
     json: J,
+    /// the MODEL's pretty rendering of the library's graph (`Pretty.pretty`), when the driver answered
+    model_pretty: Option<String>,
 }
 
-fn library(tsg: &str, src: &str, lazy: bool, globals: &[(String, String)]) -> Lib {
-    let mut lib = Lib { load_ok: false, source_has_errors: false, exec_ok: false, pretty: String::new(), json: J::Null };
+fn library(tsg: &str, src: &str, lazy: bool, globals: &[(String, String)], drv: &mut Driver) -> Lib {
+    let mut lib = Lib { load_ok: false, source_has_errors: false, exec_ok: false, pretty: String::new(), json: J::Null, model_pretty: None };
     let file = match load(tsg) {
         Ok(Ok(f)) => f,
         _ => return lib,
@@ -75,9 +77,16 @@ fn library(tsg: &str, src: &str, lazy: bool, globals: &[(String, String)]) -> Li
         }
     }
     let config = ExecutionConfig::new(&functions, &gl).lazy(lazy);
-    let r = std::panic::catch_unwind(std::panic::AssertUnwindSafe(|| file.execute(&tree, src, &config, &NoCancellation).map(|g| (format!("{}", g.pretty_print()), serde_json::to_value(&g).unwrap()))));
-    if let Ok(Ok((p, mut j))) = r {
+    let r = std::panic::catch_unwind(std::panic::AssertUnwindSafe(|| file.execute(&tree, src, &config, &NoCancellation).map(|g| {
+        // the pretty form is also rendered by the model from the exported graph: the CLI's text is compared with both
+        let info = crate::tree::TreeInfo::new(&tree);
+        drv.ask(&sexp::tagged("set-tree", vec![info.to_sexp(src)]));
+        let mp = drv.ask(&sexp::tagged("pretty", vec![crate::export::graph_sexp(&g, Some(&info))]));
+        (format!("{}", g.pretty_print()), serde_json::to_value(&g).unwrap(), mp.as_str().map(|x| x.to_string()))
+    })));
+    if let Ok(Ok((p, mut j, mp))) = r {
         lib.exec_ok = true;
+        lib.model_pretty = mp;
         lib.pretty = p;
         normalise_ids(&mut j, &mut Vec::new());
         lib.json = j;
@@ -108,6 +117,10 @@ pub fn run(rep: &mut Report, tier: &str, seed: u64) {
         if pi % 3 == 1 || pi % 13 == 12 {
             // a stanza that observes the extent of the whole file: the CLI must run on the file's bytes as they are
             tsg.push_str("(module) @cm {\n  node cmn\n  attr (cmn) erow = (end-row @cm), ecol = (end-column @cm), text = (source-text @cm)\n}\n");
+        }
+        if pi % 3 == 2 {
+            // values of every shape in the printed graph: strings after the first position of a list, nested lists, sets, null
+            tsg.push_str("(module) @_lm {\n  node lmn\n  attr (lmn) names = [\"a\", \"b c\", \"d\"], nested = [1, [\"u\", \"v\"]], mixed = [#true, \"x\", #null], aset = {\"p\", \"q\"}, quoted = \"q\\\"t\"\n}\n");
         }
         if pi % 7 == 6 {
             tsg = tsg.replacen("node ", "nodde ", 1); // rejected file
@@ -192,8 +205,8 @@ pub fn run(rep: &mut Report, tier: &str, seed: u64) {
             // library
             let globals_parsed: Option<Vec<(String, String)>> = gargs.iter().map(|g| g.split_once('=').map(|(a, b)| (a.to_string(), b.to_string()))).collect();
             let lib = match &globals_parsed {
-                Some(gl) => library(&tsg, &src, lazy, gl),
-                None => library(&tsg, &src, lazy, &[]),
+                Some(gl) => library(&tsg, &src, lazy, gl, &mut drv),
+                None => library(&tsg, &src, lazy, &[], &mut drv),
             };
             let key = format!("{}\u{0}{}\u{0}{:?}", tsg, src, &argv[2..]);
             rep.case(&key, true);
@@ -232,6 +245,16 @@ pub fn run(rep: &mut Report, tier: &str, seed: u64) {
             if exit_zero {
                 if !jsonf && !quiet && stdout != lib.pretty {
                     rep.fail("direct", "C19 the printed graph differs from the library's pretty_print()", true, replay.clone());
+                }
+                // ... and from the model's rendering of the graph the library computed (the library's printer is shared with the CLI)
+                if !jsonf && !quiet {
+                    if let Some(mp) = &lib.model_pretty {
+                        if &stdout != mp {
+                            rep.fail("disagreement", "C19 the printed graph differs from the model's rendering of the library's graph", true, replay.clone());
+                        } else {
+                            rep.count("printed-graph-equals-model-rendering");
+                        }
+                    }
                 }
                 let check_json = |text: &str| -> bool {
                     match serde_json::from_str::<J>(text) {
